@@ -1,4 +1,5 @@
 import OdxVerif.Model.Atomic
+import OdxVerif.Model.CodecCompu
 /-! Executable model of the composite codec (odxtools/codec.py, parameters/*.py, basicstructure.py,
     dataobjectproperty.py, the four diag-coded types, the four field kinds), on top of the atomic layer.
     Constructs the model does not follow return `Err.unmodelled` (the driver answers `(unsupported)`).
@@ -20,11 +21,26 @@ deriving Repr, Inhabited
 def Dct.baseType : Dct → BaseType
   | .std bt .. | .minmax bt .. | .leading bt .. | .paramLen bt .. => bt
 
-/-- the compu methods the codec model follows itself (the others are property C07's business) -/
+/-- the compu methods the codec model follows itself: IDENTICAL, and LINEAR / TEXTTABLE through the exact-rational
+    model of property C07 (`Model/CodecCompu.lean`); the other categories are C07's business only -/
 inductive CCompu where
   | identical
   | other
+  | linear (d : LinDesc)
+  | texttable (scales : List TScale)
 deriving Repr, Inhabited
+
+/-- the compu method object of a DOP with coded type `ity` and physical type `pty`; `none`: not followed
+    (the loader rejects the description, or it is outside the exactness guard of `Model/CodecCompu.lean`) -/
+def CCompu.method? (cm : CCompu) (ity pty : BaseType) : Option Compu.Method :=
+  match cm with
+  | .identical => do
+    let i ← dtype? ity
+    let p ← dtype? pty
+    pure (.identical i p)
+  | .linear d => linMethod? d ity pty
+  | .texttable scs => ttMethod? scs ity pty
+  | .other => none
 
 /-- physical values -/
 inductive PVal where
@@ -35,6 +51,7 @@ inductive PVal where
   | pair (name : String) (v : PVal)     -- value of a multiplexer: (case name, content) — also what decoding returns
   | keyed (key : Int) (v : PVal)        -- value of a multiplexer: (switch-key value, content)
   | nokey (v : PVal)                    -- value of a multiplexer: (None, content) = the default case
+  | dtc (code : Int)                    -- a `DiagnosticTroubleCode` object (what a DTC-DOP decodes to), by its trouble code
 deriving Repr, Inhabited
 
 mutual
@@ -48,6 +65,7 @@ inductive Dop where
   | mux (bytePos swBytePos : Nat) (swBitPos : Option Nat) (swDop : Dop) (cases : List MuxCaseD)
         (dflt : Option (String × Option Dop))
   | unsupported
+  | dtc (dct : Dct) (phys : BaseType) (cm : CCompu) (dtcs : List (Int × String))   -- DTC-DOP: (trouble code, short name)
 /-- a CASE of a multiplexer: short name, limits of the switch key, content structure -/
 inductive MuxCaseD where
   | mk (name : String) (lower upper : Int) (struct : Option Dop)
@@ -286,6 +304,7 @@ def pvalEq : PVal → PVal → Bool
   | .pair n x, .pair m y => n == m && pvalEq x y
   | .keyed k x, .keyed l y => k == l && pvalEq x y
   | .nokey x, .nokey y => pvalEq x y
+  | .dtc a, .dtc b => a == b
   | .list xs, .list ys => pvalListEq xs ys
   | .dict xs, .dict ys => pvalDictEq xs ys
   | _, _ => false
@@ -326,11 +345,55 @@ def caseOfName (name : String) : List MuxCaseD → Option MuxCaseD
   | [] => none
   | c :: cs => if c.name = name then some c else caseOfName name cs
 
+/-- `self.dop.is_valid_physical_value(physical_value)` of `encode_placeholder_into_pdu` for a key DOP with a LINEAR /
+    TEXTTABLE compu method (IDENTICAL: an `int` is valid for the integer key DOPs the model follows) -/
+def cmKeyValid (cm : CCompu) (ity pty : BaseType) (i : Int) : EncM Unit :=
+  match cm with
+  | .identical | .other => pure ()
+  | cm =>
+    match cm.method? ity pty with
+    | none => raise .unmodelled
+    | some m =>
+      match m.validP (.int i) with
+      | .ok true => pure ()
+      | .ok false => odxraise .odx                                -- "Invalid explicitly specified physical value"
+      | .error _ => raise .unmodelled
+
+def keyValidCheck : Dop → Int → EncM Unit
+  | .simple dct phys cm, i => cmKeyValid cm dct.baseType phys i
+  | .dtc .., _ => raise .unmodelled
+  | _, _ => pure ()
+
+/-- `LengthKeyParameter.encode_value_into_pdu`: "make sure that the length key is able to represent it" — the compu
+    method of the key's DOP must map the bit length to an internal value that converts back to it -/
+def cmKeyRepr (cm : CCompu) (ity pty : BaseType) (v : Int) : EncM Unit :=
+  match cm with
+  | .identical | .other => pure ()
+  | cm =>
+    match cm.method? ity pty with
+    | none => raise .unmodelled
+    | some m =>
+      match m.validP (.int v) with
+      | .ok true => do
+        let i ← methodP2I m (.int v)
+        let p ← methodI2P .foreign m i                            -- not inside a `try`: ZeroDivisionError escapes
+        let same : Bool := match p with
+          | some q => q.pyEq (.int v)
+          | none => false
+        if !same then odxraise .encode                            -- "cannot represent a length of … bits"
+      | .ok false => pure ()
+      | .error _ => raise .unmodelled
+
+def keyReprCheck : Dop → Int → EncM Unit
+  | .simple dct phys cm, v => cmKeyRepr cm dct.baseType phys v
+  | _, _ => pure ()                                               -- `isinstance(self.dop, DataObjectProperty)`
+
 /-- `LengthKeyParameter.encode_placeholder_into_pdu` -/
 def encodeKeyPlaceholder (name : String) (bytePos bitPos : Option Nat) (dop : Dop) (pv : Option PVal) : EncM Unit := do
   match pv with
   | some (.atom (.int i)) =>
-    -- is_valid_physical_value: only the identical compu method on an unsigned DOP is modelled
+    -- is_valid_physical_value: IDENTICAL on an integer DOP admits every `int`; LINEAR / TEXTTABLE: `keyValidCheck`
+    keyValidCheck dop i
     let s ← getS
     match lookup name s.lengthKeys with
     | some old => if old ≠ i then odxraise .odx
@@ -359,6 +422,14 @@ def encodeDop : (fuel : Nat) → Dop → PVal → EncM Unit
       else encodeDct dct v
     | .identical, _ => raise .encode
     | .other, _ => raise .unmodelled
+    | cm, .atom v =>
+      -- LINEAR / TEXTTABLE: is_valid_physical_value, convert_physical_to_internal, is_valid_internal_value (`dopP2I`)
+      match cm.method? dct.baseType phys with
+      | none => raise .unmodelled
+      | some m => do
+        let i ← dopP2I m v
+        encodeDct dct i
+    | _, _ => raise .encode                                       -- not an atom: no numeric / string type admits it
   | fuel+1, .struct byteSize ps, pv => do
     let s0 ← getS
     let origPos := s0.cursorByte
@@ -467,6 +538,29 @@ def encodeDop : (fuel : Nat) → Dop → PVal → EncM Unit
            | _ => raise .encode)
         modifyS fun s' => { s' with origin := s.origin }
   | fuel+1, .unsupported, _ => raise .unmodelled
+  | _+1, .dtc dct phys cm dtcs, pv => do
+    -- `DtcDop.encode_into_pdu`
+    match pv with
+    | .none => odxraise .encode                                   -- "No DTC specified"; lenient: `return`
+    | _ =>
+      -- convert_to_numerical_trouble_code
+      let tc : Int ← (match pv with
+        | .dtc c => pure c                                        -- a DiagnosticTroubleCode object
+        | .atom (.int c) => pure c                                -- "assume that physical value is the trouble_code"
+        | .atom (.str cps) =>                                     -- "assume that physical value is the short_name"
+          (match dtcs.filter (fun d => d.2.toList.map Char.toNat == cps) with
+           | [d] => pure d.1
+           | _ => do odxraise .encode; raise .unmodelled)
+        | _ => do odxraise .encode; raise .unmodelled)
+      match cm.method? dct.baseType phys with
+      | none => raise .unmodelled
+      | some m => do
+        let iv ← methodP2I m (.int tc)
+        match iv with
+        | .int internal => do                                     -- `int(…)`
+          if !(dtcs.any fun d => d.1 == internal) then odxraise .encode   -- "Unknown diagnostic trouble code"
+          encodeDct dct (.int internal)
+        | _ => raise .unmodelled
 
 /-- the item loop shared by the dynamic fields: the last item inherits `is_end_of_pdu` -/
 def encodeItems (item : Dop) (origEop : Bool) : (fuel : Nat) → List PVal → EncM Unit
@@ -582,6 +676,7 @@ def encodeKeyValues : (fuel : Nat) → List Param → EncM Unit
       match lookup name s.keyPos with
       | none => raise .foreign                                    -- KeyError
       | some pos =>
+        keyReprCheck dop v
         modifyS fun s => { s with cursorByte := pos, cursorBit := bitPos.getD 0 }
         encodeDop fuel dop (.atom (.int v))
     encodeKeyValues fuel rest
